@@ -7,7 +7,8 @@ use crate::util::*;
 use crate::Args;
 use re::geom::{vertex, Tri, Vertex};
 use re::math::color::{rgba, Color4};
-use re::math::mat::viewport;
+use re::math::mat::{viewport, Mat4x4, RealToProj, RealToReal};
+use re::render::{World, WorldToView};
 use re::math::point::pt2;
 use re::math::vec::ProjVec4;
 use re::render::clip::{view_frustum, ClipVert};
@@ -102,11 +103,16 @@ pub fn exec(case: &Value) -> Value {
     let tris_in = case["tris"].as_array().unwrap();
     let nt = tris_in.len();
     let np = (bw * bh) as usize;
+    let scene_scale = 2f32.powi(case.get("sc").and_then(|v| v.as_i64()).unwrap_or(0) as i32);
     // vertices: three per triangle, attribute = triangle id (1-based), plus unused extras
     let mut verts: Vec<Vtx> = vec![];
     for (t, tri) in tris_in.iter().enumerate() {
         for v in tri.as_array().unwrap() {
-            verts.push(lat_vertex(v, (t + 1) as f32));
+            // the whole scene at a homogeneous scale 2^sc (exact): the same image, reciprocal depths
+            // 2^-sc times as large - near-equal depths of a far-away scene when sc is large
+            let mut lv = lat_vertex(v, (t + 1) as f32);
+            lv.pos = lv.pos * scene_scale;
+            verts.push(lv);
         }
     }
     for _ in 0..4 {
@@ -212,9 +218,35 @@ pub fn exec(case: &Value) -> Value {
             let nv = gi(c, "nv") as usize;
             let vs = &verts[..nv];
             let disc = gi(&c["ctx"], "disc") == 1;
-            let via_batch = c.get("via").and_then(|v| v.as_str()) == Some("batch");
+            let via = c.get("via").and_then(|v| v.as_str()).unwrap_or("render");
+            let via_batch = via == "batch";
             let sh = shader(disc);
-            let r = if kind == "fb" {
+            // the Camera front door: identity view and projection, the vertex shader passes the clip-space
+            // positions through; "camm" hands over a MIRRORING model matrix, which that shader ignores -
+            // the picture, and with it every on-screen winding, is the same
+            let cam_go = |target: &mut dyn FnMut(&re::render::cam::Camera<Mat4x4<WorldToView>>, &Mat4x4<RealToReal<3, World, World>>)| {
+                let (x0, x1) = (vpn(0).min(vpn(2)), vpn(0).max(vpn(2)));
+                let (y0, y1) = (vpn(1).min(vpn(3)), vpn(1).max(vpn(3)));
+                let mut cam = re::render::cam::Camera::new((bw, bh)).viewport((x0..x1, y0..y1)).mode(Mat4x4::<WorldToView>::identity());
+                cam.viewport = to_screen; // (mirrored viewports are not expressible through the builder)
+                let to_world: Mat4x4<RealToReal<3, World, World>> =
+                    if via == "camm" { re::math::mat::scale(re::math::vec::vec3(-1.0, 1.0, 1.0)).to() } else { Mat4x4::identity() };
+                target(&cam, &to_world)
+            };
+            let camsh = re::render::shader::Shader::new(
+                |v: Vtx, _: (&Mat4x4<RealToProj<World>>, ())| v,
+                move |f: Frag<f32>| {
+                    let (x, y) = (f.pos.x() as u32, f.pos.y() as u32);
+                    if disc && (x + y) % 3 == 0 { None } else { Some(rgba(f.var.round() as u8, 0x40, 0x80, 0)) }
+                },
+            );
+            let r = if via == "cam" || via == "camm" {
+                if kind == "fb" {
+                    guard(|| cam_go(&mut |cam, tw| cam.render(&faces, vs, tw, &camsh, (), &mut fb, &ctx)))
+                } else {
+                    guard(|| cam_go(&mut |cam, tw| cam.render(&faces, vs, tw, &camsh, (), &mut fb.color_buf, &ctx)))
+                }
+            } else if kind == "fb" {
                 if via_batch {
                     guard(|| Batch::new().faces(&faces).vertices(vs).shader(sh).viewport(to_screen).target(&mut fb).context(&ctx).render())
                 } else {
@@ -390,10 +422,12 @@ pub fn gen(args: &Args, out: &mut dyn Write) {
         }
         if painter && do06 {
             // one sorted call without depth test, every submission order
-            for perm in &perms {
+            for (pi, perm) in perms.iter().enumerate() {
                 let mut ctx = confl.clone();
                 ctx["sort"] = json!(2);
                 ctx["test"] = json!(0);
+                // with and without face culling: culled triangles drop out, the order of the others stays
+                ctx["cull"] = json!(pi % 3);
                 hists.push(json!([{"ctx": ctx, "ord": perm, "nv": all_nv, "via": "render"}]));
             }
         }
@@ -413,11 +447,12 @@ pub fn gen(args: &Args, out: &mut dyn Write) {
                     "test": rng.below(4), "cw": rng.below(4).min(1), "dw": rng.below(4).min(1),
                     "disc": rng.below(3) / 2, "kind": kind});
                 calls.push(json!({"ctx": ctx, "ord": ord, "nv": need + rng.below(5) as usize,
-                                  "via": if rng.chance(1, 4) { "batch" } else { "render" }}));
+                                  "via": *rng.pick(&["render", "render", "render", "batch", "cam", "camm"])}));
             }
             hists.push(json!(calls));
         }
+        let sc = [0i64, 0, 16, -12][i % 4];
         writeln!(out, "{}", json!({"k": format!("s{}-{}", args.seed, i), "bw": bw, "bh": bh, "vp": vp,
-            "tris": tris, "hists": hists})).unwrap();
+            "tris": tris, "hists": hists, "sc": sc})).unwrap();
     }
 }
